@@ -199,7 +199,7 @@ func runC19(c *Ctx) {
 				if x == ps[0] {
 					return true
 				}
-				if (x.Op == "field" || x.Op == "load") && len(x.Args) > 0 {
+				if (x.Op == "field" || x.Op == "load" || x.Op == "faddr") && len(x.Args) > 0 {
 					x = x.Args[0]
 					continue
 				}
